@@ -23,6 +23,10 @@ TABLE = {
    text='generated histories mixing emit-with-callback/call() with ACKs carrying correct, duplicate, never-issued, zero and foreign ids, disconnects and reconnects; an ack model (outstanding ids per session id) decides which callback may fire; call() is driven through scripted orders of ACK / timeout / disconnect / loss on virtual time',
    note='timeouts are observed at the wait primitive (VirtualEvent) or on a virtual asyncio clock, never wall clock; multi-recipient callbacks excluded as documented',
    tech='runtime monitoring: history + executable ack model, escape monitor, virtual time'),
+ 'C16': dict(cat='exploration',
+   text='generated histories of connects, save_session/get_session/session() blocks, namespace disconnects, server disconnects, transport losses and re-connects on the same or new transports against real Server/AsyncServer; every read is compared with a dict model keyed by (sid, namespace); stored values carry unique origin markers so a leak names its source',
+   note='dictionaries returned by get_session() are not mutated by the harness; one known finding (session-survives-namespace-reconnect) is matched only when the leaked data comes from an earlier epoch of the same (transport, namespace)',
+   tech='runtime monitoring: history + executable session model with origin markers'),
 }
 # filled in as checks are built; see bottom of file for the not-built reason
 
